@@ -1,6 +1,8 @@
 package rules
 
 import (
+	ssa "xvc/xssa"
+
 	"strings"
 
 	"xvc/q"
@@ -19,31 +21,8 @@ func c03(c *q.Ctx) {
 	const xm = "bcs/ledger/xledger/state/xmodel::"
 	const txp = "bcs/ledger/xledger/tx::"
 	blockTx := q.Cond{Canon: "(0 < len(p1.Blockid))", Sense: true}
-	poolTx := q.Cond{Canon: "(0 < len(p1.Blockid))", Sense: false}
 
-	// ---- XModel.DoTx: verify before update
-	dt := c.Fn(xm + "(*XModel).DoTx")
-	if dt != nil {
-		c.Gate(dt, "XModel.verifyInputs", q.ToCall("XModel.updateExtUtxo"), q.Opt{})
-		c.Gate(dt, "XModel.verifyOutputs", q.ToCall("XModel.updateExtUtxo"), q.Opt{})
-		c.Gate(dt, "XModel.updateExtUtxo", q.ToSuccess(), q.Opt{})
-		c.ArgIs(dt, "XModel.verifyInputs", 1, "p1", 1, "the transaction that is verified is the one applied")
-		c.ArgIs(dt, "XModel.verifyOutputs", 1, "p1", 1, "the transaction that is verified is the one applied")
-		c.ArgIs(dt, "XModel.updateExtUtxo", 1, "p1", 1, "the transaction that is verified is the one applied")
-		// batch-cache freshness: for a block transaction the cache is reset for this batch before it is consulted
-		c.Before(dt, q.ToCall("XModel.cleanCache"), q.ToCall("XModel.verifyInputs"), "a block transaction's version reads go through the in-batch cache, which must belong to this invocation's batch", poolTx)
-		c.ArgIs(dt, "XModel.cleanCache", 1, "p2", 1, "the cache is keyed to the invocation's own batch")
-	}
-	vi := c.Fn(xm + "(*XModel).verifyInputs")
-	if vi != nil {
-		c.Guard(vi, q.Cond{Canon: "(xmodel.GetVersion(*) == xmodel.GetVersionOfTxInput(p1.TxInputsExt[]))", Sense: false}, q.ToSuccess(), q.Opt{})
-		c.OnlyUnder(vi, q.ToCall("XModel.GetUncommited"), []q.Cond{blockTx}, "only block transactions may see uncommitted versions (those of earlier transactions of the same block)")
-		c.Effect(vi, q.Eff{Spec: "XModel.Get", Arg: 1, Glob: "p1.TxInputsExt[].Key", Req: []q.Cond{poolTx}, Why: "a pool transaction's cited versions are compared with the committed ones", Rule: "K2"})
-		c.Effect(vi, q.Eff{Spec: "XModel.GetUncommited", Arg: 1, Glob: "p1.TxInputsExt[].Key", Req: []q.Cond{blockTx}, Why: "a block transaction sees the versions written earlier in the block", Rule: "K2"})
-		c.Gate(vi, "XModel.Get|XModel.GetUncommited", q.ToSuccess(), q.Opt{K1Only: true, Min: 2})
-		// the value whose version is compared is the one that was read for the same bucket/key
-		c.Guard(vi, q.Cond{Canon: "(xmodel.GetVersion(phi{xmodel.(*XModel).Get(p0,p1.TxInputsExt[].Bucket,p1.TxInputsExt[].Key)#0|xmodel.(*XModel).GetUncommited(p0,p1.TxInputsExt[].Bucket,p1.TxInputsExt[].Key)#0}) == xmodel.GetVersionOfTxInput(p1.TxInputsExt[]))", Sense: false}, q.ToSuccess(), q.Opt{})
-	}
+	commitVersionChecks(c)
 	vo := c.Fn(xm + "(*XModel).verifyOutputs")
 	if vo != nil {
 		c.Guard(vo, q.Cond{Canon: "newmap<map[string]bool>[xmodel.makeRawKey(p1.TxOutputsExt[].Bucket,p1.TxOutputsExt[].Key)]", Sense: false}, q.ToSuccess(), q.Opt{})
@@ -77,16 +56,7 @@ func c03(c *q.Ctx) {
 	// ---- pool admission
 	ds := c.Fn(st + "(*State).doTxSync")
 	if ds != nil {
-		c.Gate(ds, "SpinLock.TryLock", q.ToCall("State.doTxInternal"), q.Opt{})
-		c.ArgIs(ds, "SpinLock.TryLock", 1, "utxo.(*SpinLock).ExtractLockKeys(p0.utxo.SpLock,p1)", 1, "lock keys are extracted from this transaction")
-		c.ArgIs(ds, "SpinLock.Unlock", 1, "utxo.(*SpinLock).TryLock(*)#0", 1, "exactly the keys obtained are released")
-		nDefer := 0
-		for _, ci := range q.CallsIn(ds, "SpinLock.Unlock") {
-			if isDefer(ci) {
-				nDefer++
-			}
-		}
-		c.Check(nDefer == 1, "K2", st+"(*State).doTxSync", "SpinLock.Unlock is deferred (runs on every exit)", "-", "key locks are released on all exits")
+		keyLockProtocol(c)
 		c.Guard(ds, q.Cond{Canon: "sync.(*Map).Load(p0.tx.UnconfirmTxInMem,p1.Txid)#1", Sense: true}, q.ToCall("State.doTxInternal"), q.Opt{})
 		c.Before(ds, q.ToCall("SpinLock.TryLock"), q.ToCall("Map.Load"), "pool membership is tested under the key locks")
 		c.Gate(ds, "State.doTxInternal", q.ToCall("Batch.Write"), q.Opt{})
@@ -122,6 +92,7 @@ func c03(c *q.Ctx) {
 	poolGraph(c)
 	poolRollback(c)
 	utxoInverse(c)
+	inputChecks(c)
 }
 
 // poolGraph: the pool's dependency graph links every pending transaction to every
@@ -150,5 +121,67 @@ func poolRollback(c *q.Ctx) {
 		c.NeverAfter(uu, q.ToCall("State.undoTxInternal"), q.ToCall("State.undoUnconfirmedTx"), "dependants are rolled back before the transaction itself, never after")
 		c.ArgIs(uu, "State.undoUnconfirmedTx", 1, "p2[p3[p1.Txid][]]", 1, "the dependants are the graph's children of this transaction (the graph is keyed by the raw txid)")
 		c.Gate(uu, "State.undoUnconfirmedTx", q.ToCall("State.undoTxInternal"), q.Opt{K1Only: true})
+	}
+}
+
+// keyLockProtocol: pool admission takes the key locks of exactly this transaction, obeys a refusal, and releases
+// EXACTLY the keys it obtained on EVERY exit - the release is deferred right after TryLock, before the refusal exit
+// (TryLock is not all-or-nothing: a refused submission holds the keys that sort before the contested one; releasing
+// the requested keys instead frees locks held by others). Shared by C02, C03, C05 and C12.
+func keyLockProtocol(c *q.Ctx) {
+	const st = "bcs/ledger/xledger/state::"
+	ds := c.Fn(st + "(*State).doTxSync")
+	if ds == nil {
+		return
+	}
+	c.Gate(ds, "SpinLock.TryLock", q.ToCall("State.doTxInternal"), q.Opt{})
+	c.ArgIs(ds, "SpinLock.TryLock", 1, "utxo.(*SpinLock).ExtractLockKeys(p0.utxo.SpLock,p1)", 1, "all keys of this transaction, and only those, are requested")
+	c.ArgIs(ds, "SpinLock.Unlock", 1, "utxo.(*SpinLock).TryLock(*)#0", 1, "exactly the keys obtained are released (a refused submission must not release keys held by others)")
+	nDefer := 0
+	for _, ci := range q.CallsIn(ds, "SpinLock.Unlock") {
+		if isDefer(ci) {
+			nDefer++
+		}
+	}
+	c.Check(nDefer == 1, "K2", st+"(*State).doTxSync", "SpinLock.Unlock is deferred (runs on every exit)", "-", "key locks are released on all exits")
+	deferUnlock := q.Target{Name: "the deferred SpinLock.Unlock", Instr: func(i ssa.Instruction) bool {
+		d, ok := i.(*ssa.Defer)
+		return ok && q.Callee(d.Common()).Match("SpinLock.Unlock")
+	}}
+	tryLock := q.Target{Name: "SpinLock.TryLock", Instr: func(i ssa.Instruction) bool {
+		ci, ok := i.(*ssa.Call)
+		return ok && q.Callee(ci.Common()).Match("SpinLock.TryLock")
+	}}
+	c.Then(ds, tryLock, deferUnlock, q.ToAnyReturn(), nil, "no exit lies between TryLock and the registration of the release: a refusal still holds part of the keys")
+}
+
+// commitVersionChecks: the version comparison that is atomic with the commit (XModel.DoTx -> verifyInputs). Shared by
+// C03 (admission iff inputs are current) and C09 (a transaction whose declared reads are not current is rejected).
+func commitVersionChecks(c *q.Ctx) {
+	const xm = "bcs/ledger/xledger/state/xmodel::"
+	blockTx := q.Cond{Canon: "(0 < len(p1.Blockid))", Sense: true}
+	poolTx := q.Cond{Canon: "(0 < len(p1.Blockid))", Sense: false}
+	// ---- XModel.DoTx: verify before update
+	dt := c.Fn(xm + "(*XModel).DoTx")
+	if dt != nil {
+		c.Gate(dt, "XModel.verifyInputs", q.ToCall("XModel.updateExtUtxo"), q.Opt{})
+		c.Gate(dt, "XModel.verifyOutputs", q.ToCall("XModel.updateExtUtxo"), q.Opt{})
+		c.Gate(dt, "XModel.updateExtUtxo", q.ToSuccess(), q.Opt{})
+		c.ArgIs(dt, "XModel.verifyInputs", 1, "p1", 1, "the transaction that is verified is the one applied")
+		c.ArgIs(dt, "XModel.verifyOutputs", 1, "p1", 1, "the transaction that is verified is the one applied")
+		c.ArgIs(dt, "XModel.updateExtUtxo", 1, "p1", 1, "the transaction that is verified is the one applied")
+		// batch-cache freshness: for a block transaction the cache is reset for this batch before it is consulted
+		c.Before(dt, q.ToCall("XModel.cleanCache"), q.ToCall("XModel.verifyInputs"), "a block transaction's version reads go through the in-batch cache, which must belong to this invocation's batch", poolTx)
+		c.ArgIs(dt, "XModel.cleanCache", 1, "p2", 1, "the cache is keyed to the invocation's own batch")
+	}
+	vi := c.Fn(xm + "(*XModel).verifyInputs")
+	if vi != nil {
+		c.Guard(vi, q.Cond{Canon: "(xmodel.GetVersion(*) == xmodel.GetVersionOfTxInput(p1.TxInputsExt[]))", Sense: false}, q.ToSuccess(), q.Opt{})
+		c.OnlyUnder(vi, q.ToCall("XModel.GetUncommited"), []q.Cond{blockTx}, "only block transactions may see uncommitted versions (those of earlier transactions of the same block)")
+		c.Effect(vi, q.Eff{Spec: "XModel.Get", Arg: 1, Glob: "p1.TxInputsExt[].Key", Req: []q.Cond{poolTx}, Why: "a pool transaction's cited versions are compared with the committed ones", Rule: "K2"})
+		c.Effect(vi, q.Eff{Spec: "XModel.GetUncommited", Arg: 1, Glob: "p1.TxInputsExt[].Key", Req: []q.Cond{blockTx}, Why: "a block transaction sees the versions written earlier in the block", Rule: "K2"})
+		c.Gate(vi, "XModel.Get|XModel.GetUncommited", q.ToSuccess(), q.Opt{K1Only: true, Min: 2})
+		// the value whose version is compared is the one that was read for the same bucket/key
+		c.Guard(vi, q.Cond{Canon: "(xmodel.GetVersion(phi{xmodel.(*XModel).Get(p0,p1.TxInputsExt[].Bucket,p1.TxInputsExt[].Key)#0|xmodel.(*XModel).GetUncommited(p0,p1.TxInputsExt[].Bucket,p1.TxInputsExt[].Key)#0}) == xmodel.GetVersionOfTxInput(p1.TxInputsExt[]))", Sense: false}, q.ToSuccess(), q.Opt{})
 	}
 }
